@@ -2,6 +2,8 @@
 //! One module per claimed property; `oracle` holds the independent reference models.
 #![allow(dead_code, unused_imports, clippy::all)]
 
+extern crate alloc;
+
 pub mod oracle;
 pub mod util;
 
@@ -9,5 +11,7 @@ pub mod util;
 pub mod c12;
 #[cfg(kani)]
 pub mod c14;
+#[cfg(kani)]
+pub mod c19;
 #[cfg(kani)]
 mod playback_gen;
